@@ -38,8 +38,38 @@ def shards(tier, seed):
         common.with_configs(out[12:13], cfgs, take=1)[1:] + mm
 
 
+def _deep_cases():
+    """Frames written WITHOUT the library whose table nests as deep as the
+    library's own encoder would accept (found by asking it): a peer may
+    send what we could send."""
+    import struct
+    from pamqp import encode
+    for via in ('F', 'AF'):
+        lo = common.deepest_accepted(
+            lambda d: common.call(encode.field_table, common.chain(d, via)))
+        if lo is None:
+            continue
+        for depth in common.probe_depths(lo):
+            v = b'F' + struct.pack('>I', 7) + b'\x04leafb\x01'
+            for i in range(depth):
+                if via == 'F' or i % 2:
+                    inner = b'\x01n' + v
+                    v = b'F' + struct.pack('>I', len(inner)) + inner
+                else:
+                    arr = b'A' + struct.pack('>I', len(v)) + v
+                    inner = b'\x01a' + arr
+                    v = b'F' + struct.pack('>I', len(inner)) + inner
+            table = v[1:]
+            p = struct.pack('>HHH', 50, 10, 0) + b'\x01q' + b'\x00' + table
+            data = struct.pack('>BHI', 1, 2, len(p)) + p + b'\xce'
+            yield {'kind': 'deep', 'wire': data, 'depth': depth, 'lo': lo,
+                   'via': via}
+
+
 def cases(shard, rnd):
     wire.AMBIG_L = True
+    if shard['name'] == 'mm0':
+        yield from _deep_cases()
     if shard['what'] == 'magic':
         for idx in shard['indexes']:
             yield from wire.magic_method_frames(rnd, refspec.METHODS[idx])
@@ -171,6 +201,23 @@ def _crosscheck(fr):
 
 
 def run_case(fr, rec, second=False):
+    if isinstance(fr, dict) and fr.get('kind') == 'deep':
+        rec.ev()
+        u = common.lib_unmarshal(fr['wire'])
+        got = getattr(u.value[2], 'arguments', None) if u.ok else None
+        if not u.ok or u.value[0] != len(fr['wire']) or \
+                common.chain_depth(got) != fr['depth']:
+            rec.violation('refused-wellformed:deep:%s' % (
+                u.exc_type or ('budget' if not u.ok else 'mismatch')),
+                'well-formed Queue.Declare whose arguments nest %d deep '
+                '(this library\'s own encoder accepts %d, via %s): %s'
+                % (fr['depth'], fr['lo'], fr['via'], u.describe()[:120]
+                   if not u.ok else 'decoded to another value'),
+                {'kind': 'deep', 'depth': fr['depth'], 'via': fr['via']})
+            return
+        rec.count('deep_wellformed_ok')
+        rec.nt(canon.digest(('deep', fr['via'], fr['depth'])))
+        return
     if isinstance(fr, dict):                 # replayed case
         common.replay_history(fr.get('prefix'))
         fr = _from_replay(fr)
